@@ -580,6 +580,23 @@ def snapshot_experiment(exp):
         d['nodes'][n].pop('env', None)  # launch-environment: not part of the stored description
     conc = wg.configuration.get_flowir_concrete(return_copy=True)
     d['platform'] = wg.configuration.platform_name
+    # the environments the components name, as the selected platform resolves them (default layered under the platform)
+    conc_live = wg.configuration.get_flowir_concrete(return_copy=False)
+    envs = {}
+    for n in d['nodes']:
+        try:
+            name = ((d['nodes'][n].get('config') or {}).get('command') or {}).get('environment')
+        except AttributeError:
+            name = None
+        if name and name not in envs and str(name).lower() not in ('none', 'environment'):
+            try:
+                envs[name] = L.canon(conc_live.get_environment(name, strict_checks=False), subst)
+            except Exception as e:
+                try:
+                    envs[name] = L.canon(conc_live.get_environment(name), subst)
+                except Exception as e2:
+                    envs[name] = 'ERR:%s' % type(e2).__name__
+    d['environments'] = envs
     d['vars'] = L.canon({str(s): conc.get_platform_stage_variables(s) for s in range(conc.get_stage_number())}, subst)
     d['global_vars'] = L.canon(conc.get_platform_global_variables(), subst)
     d['placeholders'] = L.canon({k: {'represents': sorted(v['represents']), 'latest': v['latest']}
